@@ -207,10 +207,11 @@ func linearComplexity(a []bool, M int) int {
 	var d int = 0
 	var B_, C, P, T []int
 
-	B_ = make([]int, M)
-	C = make([]int, M)
-	P = make([]int, M)
-	T = make([]int, M)
+	// P[j+N_-m] 最大下标可达 M（如分块 0^(M-1)1），故多分配一个元素
+	B_ = make([]int, M+1)
+	C = make([]int, M+1)
+	P = make([]int, M+1)
+	T = make([]int, M+1)
 
 	for i := 0; i < M; i++ {
 		B_[i] = 0
